@@ -517,6 +517,57 @@ theorem receive_total (env : Env) (dec : Nat → Bytes → Dec) (fuel : Nat) (r 
     (notify env dec fuel r net src data).1.2 = none :=
   dispatch_total ..
 
+/-- listeners whose re-entrant behaviour never calls add_listener (which appends to the list being iterated) -/
+def NoAdds (env : Env) : Prop := ∀ x d op, op ∈ env.effects x d → ∀ l, op ≠ .add l
+
+theorem foldl_applyOp_pending (key : Option Bytes) (ops : List RegOp) (h : ∀ op ∈ ops, ∀ l, op ≠ .add l) (s : DS) :
+    (ops.foldl (applyOp key) s).pending = s.pending := by
+  induction ops generalizing s with
+  | nil => rfl
+  | cons op rest ih =>
+    simp only [List.foldl_cons]
+    rw [ih (fun o ho => h o (List.mem_cons_of_mem _ ho))]
+    cases op with
+    | add x => exact absurd rfl (h _ (List.mem_cons_self ..) x)
+    | addp x q =>
+      simp only [applyOp]
+      split <;> rfl
+    | rm x => rfl
+    | setOpen b => rfl
+
+/-- termination of notify_listeners: unless a listener keeps registering listeners during the dispatch (in which case
+    the code itself never finishes), the loop is done after `len(listeners)` iterations — with that much fuel the model's
+    dispatch ends with nothing left to deliver (so `receive_total` at that fuel is about the COMPLETED loop, not about a
+    run cut short by the fuel). -/
+theorem dispatch_completes (env : Env) (dec : Nat → Bytes → Dec) (src data : Bytes) (key : Option Bytes)
+    (hna : NoAdds env) : ∀ (fuel : Nat) (s : DS), s.pending.length ≤ fuel →
+      (dispatch env dec src data key fuel s).2.pending = [] := by
+  intro fuel
+  induction fuel with
+  | zero =>
+    intro s h
+    unfold dispatch
+    exact List.length_eq_zero_iff.mp (Nat.le_zero.mp h)
+  | succ n ih =>
+    intro s h
+    unfold dispatch
+    split
+    · assumption
+    · rename_i l rest hp
+      split
+      · rename_i e he
+        rw [step_out_total] at he; cases he
+      · apply ih
+        unfold stepState
+        rw [foldl_applyOp_pending key _ (by
+          intro op hop
+          split at hop
+          · exact hna l data op hop
+          · cases hop)]
+        rw [hp] at h
+        simp at h ⊢
+        omega
+
 theorem listener_called (env : Env) (dec : Nat → Bytes → Dec) (lk : Except Exn (Option Nat)) (t : List (Nat × Listener))
     (l : Nat) (data : Bytes) (h : (lookupListener t l).isSome) :
     Ev.called l ∈ (listenerOnPacket env dec lk t l data).1 := by
@@ -890,6 +941,46 @@ theorem exit_datagram_received_total (cfg : ExitCfg) (tunnelRaises : Bool) (d : 
   · exact ⟨_, rfl⟩
   · simp [Gen.exitTunnelProtected]
 
+/-- the two callbacks asyncio calls on an exit socket (`datagram_received_ipv4` with 2-item, `datagram_received_ipv6` with
+    2-or-more-item address tuples, IPv4-mapped sources ignored) return normally -/
+theorem exit_entry_total (cfg : ExitCfg) (tunnelRaises v6 mapped : Bool) (arity : Nat)
+    (harity : if v6 then 2 ≤ arity else arity = 2) (d : Bytes) : ∃ o, exitEntry cfg tunnelRaises v6 mapped arity d = .ok o := by
+  unfold exitEntry
+  split
+  · exact ⟨_, rfl⟩
+  · split
+    · rename_i e he
+      unfold addrConv at he
+      cases v6 with
+      | true =>
+        simp only [if_true, Gen.exitV6AddrSlice] at he harity
+        split at he
+        · cases he
+        · rename_i hn; simp at hn; omega
+      | false =>
+        simp only [Bool.false_eq_true, if_false, Gen.exitV4AddrSlice] at he harity
+        split at he
+        · cases he
+        · rename_i hn; simp at hn; omega
+    · exact exit_datagram_received_total ..
+
+/-! ### the LAN broadcast socket -/
+
+/-- NEW: BroadcastBootstrapEndpoint.datagram_received returns normally for every datagram, whatever `walk_to` does
+    (it builds and sends an introduction request and can fail, e.g. packing an IPv6 own address into an old-style
+    request) — the call is inside try/except Exception (read from the source) — and whatever the overlay's handlers do. -/
+theorem broadcast_datagram_received_total (env : Env) (lk : Except Exn (Option Nat)) (hlk : ∃ p, lk = .ok p) (hdr : Bytes)
+    (walkRaises : Bool) (lid : Nat) (o : Overlay) (data : Bytes) :
+    (bcastDatagramReceived env lk hdr walkRaises lid o data).2 = none := by
+  unfold bcastDatagramReceived
+  split
+  · split
+    · simp [Gen.bcastWalkProtected]
+    · rfl
+  · split
+    · exact community_on_packet_total _ _ hlk ..
+    · rfl
+
 /-! ### the cell header -/
 
 /-- NEW (cell layer of "a truncated message is never silently accepted"): when CellPayload.from_bin accepts a packet,
@@ -897,12 +988,14 @@ theorem exit_datagram_received_total (cfg : ExitCfg) (tunnelRaises : Bool) (d : 
     so a cell that ends inside its header is rejected, never decoded to an empty message. -/
 theorem cell_header_complete (p : Bytes) (c : Cell) (h : cellFromBin p = .ok c) :
     Gen.cellMsgStart ≤ p.length ∧ c.message = p.drop Gen.cellMsgStart
-      ∧ c.cid = beDec (slice p Gen.cellHdrOff (Gen.cellHdrOff + 4)) := by
+      ∧ c.cid = beDec (slice p Gen.cellHdrOff (Gen.cellHdrOff + 4))
+      ∧ Gen.cellHdrOff + Gen.cellHdrSize = Gen.cellMsgStart      -- the message starts exactly where the header ends
+      ∧ Gen.pubIdx + 1 = Gen.cellHdrOff := by                    -- … and the header right after the message id byte
   unfold cellFromBin at h
   split at h
   · rename_i hl
     cases h
-    refine ⟨?_, rfl, rfl⟩
+    refine ⟨?_, rfl, rfl, by decide, by decide⟩
     simp [Gen.cellHdrOff, Gen.cellHdrSize, Gen.cellMsgStart] at hl ⊢
     omega
   · cases h
@@ -914,7 +1007,7 @@ theorem load_snapshot_progress (snap : Bytes) (off : Nat) (a : Val) (e : Nat)
     (h : unpackAddressAt false snap off = .ok (a, e)) : off < e ∧ e ≤ snap.length :=
   ⟨(unpackAddressAt_bound h).2, (unpackAddressAt_bound h).1⟩
 
-/-- FULL statement (termination): `len(snapshot) - offset` loop iterations always suffice — more fuel never changes the
+/-- (termination) `len(snapshot) - offset` loop iterations always suffice — more fuel never changes the
     result, so the `while offset < snaplen` loop terminates for every byte string; errors end the loop (the model's
     `.error _ => []` is the `except Exception: … break`), so nothing is raised. -/
 theorem load_snapshot_total (snap : Bytes) (fuel off : Nat) (h : snap.length - off ≤ fuel) :
